@@ -262,6 +262,34 @@ class _Mk(object):
         return threads.RandomPolicy(random.Random(self.arg), self.p)
 
 
+def _c(tag, kind, args, script=None):
+    return {'tag': tag, 'kind': kind, 'args': args, 'script': script or {}}
+
+
+# fixed cases run first on every run (random schedules): the known-finding witness, contention on one model with a
+# raising call and a re-entrant call, machine methods against events
+CORPUS = [
+    {'cls': 'hsm', 'base': [], 'nmodels': 1, 'ignore': False, 'queued': False, 'extras': {'0': [['user', 7]]},
+     'threads': [[_c(1, 'ev', [0, 'go'])]]},
+    {'cls': 'flat', 'base': [], 'nmodels': 2, 'ignore': False, 'queued': False, 'extras': {'0': [['user', 7]], '1': [['lock', 6]]},
+     'threads': [[_c(1, 'ev', [0, 'go'], {'1': {'sub': [_c(2, 'ev', [1, 'go'])], 'raise': False}})],
+                 [_c(3, 'ev', [0, 'go'], {'2': {'sub': [], 'raise': True}}), _c(4, 'ev', [1, 'back'])]]},
+    {'cls': 'hsm', 'base': [['user', 2], ['lock', 1]], 'nmodels': 1, 'ignore': True, 'queued': False, 'extras': {'0': []},
+     'threads': [[_c(1, 'add_states', ['D']), _c(2, 'add_transition', ['go', 'C', 'D'])],
+                 [_c(3, 'ev', [0, 'to_C']), _c(4, 'ev', [0, 'go'])], [_c(5, 'set_state', ['B', 0])]]},
+]
+
+
+def corpus_worker(seed, per):
+    _alarm(900)
+    rng = random.Random(seed)
+    items = []
+    for case in CORPUS:
+        for _ in range(per):
+            items.append((copy.deepcopy(case), _Mk('random', rng.randrange(1 << 30), rng.choice([0.3, 0.6, 1.0]))))
+    return process(items)
+
+
 def _alarm(seconds):
     """hard per-worker watchdog: a stuck worker becomes a machinery error, never a stuck check"""
     import signal
@@ -423,6 +451,7 @@ class C06(runner.Check):
         thorough = tier == 'thorough'
         ex = runner.Exploration()
         rng = random.Random(seed * 7919 + 17)
+        ex.merge(runner.parallel(corpus_worker, [(rng.randrange(1 << 30), 40 if thorough else 10)])[0])
         # exhaustive (preemption-bounded) enumeration of small programs
         n_enum = 32 if thorough else 16
         cap = 4000 if thorough else 700
